@@ -2988,6 +2988,8 @@ static int scan_triple_delim_string(struct scanner_s *scanner) {
             } else {
                 delim_count = 0;
                 if (CLASS_OF(c, scanner) == EOL_CLASS) {
+                    /* the line terminator itself does not count toward the line length */
+                    POSN_INCCOLUMN(scanner, -1);
                     HANDLE_EOL(scanner, c, sol);
                 } else {
                     sol = 0;
@@ -3059,6 +3061,8 @@ static int scan_text(struct scanner_s *scanner) {
                         struct scanner_s *_s_eol = (scanner);
                         UChar _c = (c);
 
+                        /* the line terminator itself does not count toward the line length */
+                        POSN_INCCOLUMN(scanner, -1);
                         if (POSN_COLUMN(scanner) > CIF_LINE_LENGTH) {
                             int _ev = _s_eol->error_callback(CIF_OVERLENGTH_LINE, _s_eol->line,
                                     scanner->column, _s_eol->next_char - 1, 0, _s_eol->user_data);
